@@ -502,7 +502,7 @@ class ParJob:
                          "case": {"par_cfg": r["cfg"], "result": r["result"], "obs": r["obs"], "steer": r.get("steer")}, "job": self.name})
         # 3. the public entry points on real readers
         for fmt in ("fasta", "fastq"):
-            for k, (faults, n) in enumerate([(False, q(tier, 400, 4000)), (True, q(tier, 300, 3000)), (True, q(tier, 300, 3000)), (False, q(tier, 10, 80)), (False, q(tier, 250, 2500))]):
+            for k, (faults, n) in enumerate([(False, q(tier, 400, 4000)), (True, q(tier, 300, 3000)), (True, q(tier, 300, 3000)), (False, q(tier, 10, 80)), (False, q(tier, 250, 2500)), (False, q(tier, 300, 3000))]):
                 if hang:
                     break
                 sp = os.path.join(wd, "api_%s_%d.json" % (fmt, k))
@@ -513,6 +513,10 @@ class ParJob:
                 if k == 3:
                     # long inputs: batches of several hundred records alternating with batches of two or three (counters only)
                     sd.update({"focus": "big", "gen": {"maxrec": 1, "maxfield": 1, "damage": 0}})
+                if k == 5:
+                    # a reader with a history: some records read one by one under a policy that permits no growth (possibly ending
+                    # in BufferLimit), then the default policy installed, then handed to the parallel function
+                    sd.update({"focus": "prehist", "gen": {"maxrec": 9, "maxfield": 6, "damage": 10}})
                 if k == 4:
                     # a source that fails at a random offset of a well-formed input
                     sd.update({"focus": "iofail", "gen": {"maxrec": 9, "maxfield": 4, "damage": 0}})
